@@ -351,15 +351,25 @@ def run_B(case):
                                       "detail": "der applied %d times to a control of order %d did not raise" % (k + 1, k)})
         ocp2 = rockit.Ocp()
         u0 = ocp2.control()
-        raised = False
-        try:
-            ocp2.der(u0)
-        except Exception:
-            raised = True
-        res["evals"] += 1
-        if not raised:
-            res["violations"].append({"kind": "no-raise", "mech": "C16|der-of-order-0-control-did-not-raise",
-                                      "detail": "der(u) of a piecewise-constant control did not raise"})
+        x2 = ocp2.state()
+        ocp2.set_der(x2, u0)
+        w2 = ocp2.variable(grid="bspline", order=2)
+        # the piecewise-constant bottom of a chain has no derivative, however it is wrapped: alone, times time,
+        # times a state, times a bspline signal, inside a second der()
+        bottoms = [("der(u)", lambda: ocp2.der(u0)), ("der(t*u)", lambda: ocp2.der(ocp2.t * u0)),
+                   ("der(x*u)", lambda: ocp2.der(x2 * u0)), ("der(u*w)", lambda: ocp2.der(u0 * w2)),
+                   ("der(t*der^k(c))", lambda: ocp.der(ocp.t * chain[-1][0]))]
+        for nm_, fn_ in bottoms:
+            raised = False
+            try:
+                fn_()
+            except Exception:
+                raised = True
+            res["evals"] += 1
+            res["counters"]["raises"] += 1
+            if not raised:
+                res["violations"].append({"kind": "no-raise", "mech": "C16|der-of-order-0-control-did-not-raise",
+                                          "detail": "%s of a piecewise-constant control did not raise" % nm_})
         ocp.method(rockit.SingleShooting(N=N, M=M, intg="rk", grid=build.make_grid(case["grid"])))
         ocp.solver("ipopt")
         samples = []
